@@ -142,7 +142,30 @@ impl<'r, R: Read> Block<'r, R> {
     /// the block. The objects are stored in an internal buffer to the `Reader`.
     fn read_block_next(&mut self) -> AvroResult<()> {
         assert!(self.is_empty(), "Expected self to be empty!");
-        match util::read_usize(&mut self.reader).map_err(Error::into_details) {
+        // The stream may only end cleanly at a block boundary, i.e. before the first byte of the
+        // object count. Running out of bytes anywhere after that is a truncated file.
+        let mut first = [0u8; 1];
+        let first_len: usize;
+        loop {
+            match self.reader.read(&mut first) {
+                Ok(n) => {
+                    first_len = n;
+                    break;
+                }
+                Err(e) => {
+                    if e.kind() != ErrorKind::Interrupted {
+                        return Err(Details::ReadVariableIntegerBytes(e).into());
+                    }
+                }
+            }
+        }
+        if first_len == 0 {
+            // to not return any error in case we only finished to read cleanly from the stream
+            return Ok(());
+        }
+        match util::read_usize(&mut first.as_slice().chain(&mut self.reader))
+            .map_err(Error::into_details)
+        {
             Ok(block_len) => {
                 self.message_count = block_len;
                 let block_bytes = util::read_usize(&mut self.reader)?;
@@ -163,14 +186,6 @@ impl<'r, R: Read> Block<'r, R> {
                 // We can address this by using some "limited read" type to decode directly
                 // into the buffer. But this is fine, for now.
                 self.codec.decompress(&mut self.buf)
-            }
-            Err(Details::ReadVariableIntegerBytes(io_err)) => {
-                if let ErrorKind::UnexpectedEof = io_err.kind() {
-                    // to not return any error in case we only finished to read cleanly from the stream
-                    Ok(())
-                } else {
-                    Err(Details::ReadVariableIntegerBytes(io_err).into())
-                }
             }
             Err(e) => Err(Error::new(e)),
         }
